@@ -49,24 +49,45 @@ def r1(ctx):
     ctx.used_body(key)
     body = P.body(key)
     site = body.get("def_span")
-    cd = {d: n for n, d in P.enum_variants("chess_bitboard::color::Color")}
-    mates = [x for x in score_returns(P, key) if x[1] in ("BlackMateIn", "WhiteMateIn")]
-    ctx.floor("mate-score sites in alphabeta", len(mates), 2)
+    COLOR_T = "chess_bitboard::color::Color"
+    args_name = [l["n"] for l in body["locals"][1:body["argc"] + 1] if l["ty"].lstrip("&").replace("mut ", "").startswith(ENG + "AlphaBetaArgs")]
+    if len(args_name) != 1:
+        raise AnchorError("alphabeta has no single AlphaBetaArgs parameter")
+    depth_place = ("place", args_name[0], ("d", "current_depth"))
+    # mate scores are built in alphabeta itself or in a private helper it calls: (function, block, variant, payload, call site in alphabeta)
+    mates = []
+    for f in sorted(k2.private_closure(P, key)):
+        if "{closure" in f:
+            continue
+        for bi, vn, ops in score_returns(P, f):
+            if vn not in ("BlackMateIn", "WhiteMateIn"):
+                continue
+            if f == key:
+                mates.append((f, bi, vn, ops, None))
+            else:
+                for cb, ct in k2.call_sites(P, key, f):
+                    mates.append((f, bi, vn, ops, (cb, ct)))
+    ctx.floor("mate-score sites reachable in alphabeta", len(mates), 2)
     want_color = {"BlackMateIn": "White", "WhiteMateIn": "Black"}
-    for bi, vn, ops in mates:
-        g, calls = guard_truth(P, key, bi)
+    for f, bi, vn, ops, cs in mates:
+        g, calls = guard_truth(P, f, bi)
+        if cs is not None:
+            # the helper's own guards decide the colour; the call site's guards decide when a mate score is produced; its argument is the payload
+            g2, calls2 = guard_truth(P, key, cs[0])
+            g, calls = g + g2, dict(calls2, **calls)
+            fb = P.body(f)
+            pmap = {("place", fb["locals"][i + 1]["n"], ()): k2.describe_operand(P, body, a) for i, a in enumerate(cs[1]["a"])}
+            ops = [pmap.get(o, o) for o in ops]
         no_moves = calls.get(IS_EMPTY, (None,))[0] is True
         in_check = calls.get(IN_CHECK, (None,))[0] is True
-        color = None
-        for d, taken, _ in g:
-            if d == ("discr", ("uneval", "<P as chess_engine::Policy>::COLOR")) and isinstance(taken, int):
-                color = cd.get(taken)
-        payload_ok = ops == [("place", "args", ("d", "current_depth"))]
-        ctx.ob(f"{vn} guards", no_moves and in_check, f"Score::{vn} is returned under guards {[(T.short(c), v[0]) for c, v in calls.items()]}; a mate requires no legal move AND in check",
+        color = k2.assoc_enum_guard(P, g, "<P as chess_engine::Policy>::COLOR", COLOR_T)
+        payload_ok = ops == [depth_place]
+        tag = vn if f == key else f"{vn} via {T.short(f)}"
+        ctx.ob(f"{vn} guards", no_moves and in_check, f"Score::{tag} is returned under guards {[(T.short(c), v[0]) for c, v in calls.items()]}; a mate requires no legal move AND in check",
                site=site, sample={"no_moves": no_moves, "in_check": in_check})
-        ctx.ob(f"{vn} colour", color == want_color[vn], f"Score::{vn} is returned when the side to move (P::COLOR) is {color}; {vn} means {want_color[vn]} is mated", site=site,
+        ctx.ob(f"{vn} colour", color == want_color[vn], f"Score::{tag} is returned when the side to move (P::COLOR) is {color}; {vn} means {want_color[vn]} is mated", site=site,
                sample={"P::COLOR": color})
-        ctx.ob(f"{vn} distance", payload_ok, f"Score::{vn} carries {ops}, expected args.current_depth", site=site)
+        ctx.ob(f"{vn} distance", payload_ok, f"Score::{tag} carries {ops}, expected args.current_depth", site=site)
     # the emptiness test is on legals() of the position after the move
     first_empty = sorted(b for b, _ in k2.call_sites(P, key, IS_EMPTY))[:1]
     ok = False
@@ -79,13 +100,16 @@ def r1(ctx):
     sk = P.find_fn("Engine::search_with", "chess_engine")
     ctx.used_body(sk)
     sb = P.body(sk)
-    depth1 = False
-    for blk in sb["blocks"]:
-        for s in blk["s"]:
-            r = s.get("r", {})
-            if r.get("k") == "agg" and r.get("adt") == ENG + "AlphaBetaArgs":
-                ops = dict(zip(r["fields"], r["ops"]))
-                depth1 = k2.describe_operand(P, sb, ops["current_depth"]) == ("int", 1, "u16")
+    roots = []
+    for f in sorted(k2.private_closure(P, sk) - k2.private_closure(P, key)):
+        fb = P.body(f)
+        for blk in fb["blocks"]:
+            for s in blk["s"]:
+                r = s.get("r", {})
+                if r.get("k") == "agg" and r.get("adt") == ENG + "AlphaBetaArgs":
+                    ops = dict(zip(r["fields"], r["ops"]))
+                    roots.append(k2.describe_operand(P, fb, ops["current_depth"]) == ("int", 1, "u16"))
+    depth1 = bool(roots) and all(roots)
     ctx.ob("root current_depth = 1", depth1, "search_with does not start alphabeta at current_depth 1: a mate in one would not be reported as mate-in-1", site=sb.get("def_span"))
     # recursion increments the depth by exactly one
     inc = False
@@ -96,7 +120,7 @@ def r1(ctx):
                 ops = dict(zip(r["fields"], r["ops"]))
                 d = k2.describe_operand(P, body, ops["current_depth"])
                 b_ = d[1] if d[0] == "proj" else d
-                inc = b_[0] == "bin" and b_[1].startswith("Add") and ("int", 1, "u16") in b_[2:] and ("place", "args", ("d", "current_depth")) in b_[2:]
+                inc = b_[0] == "bin" and b_[1].startswith("Add") and ("int", 1, "u16") in b_[2:] and depth_place in b_[2:]
     ctx.ob("recursion depth + 1", inc, "alphabeta does not pass current_depth + 1 to the next ply", site=site)
 
 
@@ -104,7 +128,11 @@ def r1(ctx):
 def r2(ctx):
     P = ctx.P
     cons = k2.constructors_of(P, SCORE)
-    allowed = {P.find_fn("Engine::alphabeta", "chess_engine"), "chess_api::EvaluatedMove::score"}
+    # alphabeta and the private helpers only it calls (their constructions are checked at alphabeta's call sites by R1)
+    ab = P.find_fn("Engine::alphabeta", "chess_engine")
+    callers = P.callers()
+    helpers = {f for f in k2.private_closure(P, ab) if f != ab and "{closure" not in f and {c for c, _ in callers.get(f, [])} <= {ab}}
+    allowed = {ab, "chess_api::EvaluatedMove::score"} | helpers
     bad = {}
     for k, sites in cons.items():
         mate = [s for s in sites if s[1] in ("BlackMateIn", "WhiteMateIn")]
@@ -287,27 +315,39 @@ def r5(ctx):
     key = P.find_fn("Engine::search_with", "chess_engine")
     body = P.body(key)
     site = body.get("def_span")
-    # every assignment `best_mv_at = Some(mv)` is guarded by P::is_better(score, new) == true
+    # locals by role, not by name: the running best score of a pass starts at P::WORST_SCORE; a candidate score is what alphabeta returned
+    name_of = lambda i: body["locals"][i].get("n")
+    score_locals, starts = set(), []
+    for blk in body["blocks"]:
+        for s in blk["s"]:
+            if s["k"] == "assign" and name_of(s["p"]["l"]) and not s["p"]["pj"] and body["locals"][s["p"]["l"]]["ty"] == SCORE:
+                d = k2.describe_def(P, body, "stmt", s)
+                if d[0] == "uneval":
+                    starts.append(d[1])
+                    if d[1] == "<P as chess_engine::Policy>::WORST_SCORE":
+                        score_locals.add(name_of(s["p"]["l"]))
+    ab = P.find_fn("Engine::alphabeta", "chess_engine")
+    cand_locals = set()
+    for i, l in enumerate(body["locals"]):
+        if l.get("n") and l["ty"] == SCORE and any(o[0] == "call" and T.strip_generics(o[1]) == ab for o in k2.origins(P, body, i)):
+            cand_locals.add(l["n"])
+    # every assignment `<Option<ChessMove> local> = Some(mv)` is guarded by P::is_better(running best, candidate) == true
     n = 0
     for bi, blk in enumerate(body["blocks"]):
         for s in blk["s"]:
-            if s["k"] == "assign" and body["locals"][s["p"]["l"]].get("n") == "best_mv_at" and not s["p"]["pj"] and (lambda d: d[0] == "agg" and d[2] == "Some")(k2.describe_def(P, body, "stmt", s)):
+            if (s["k"] == "assign" and name_of(s["p"]["l"]) and not s["p"]["pj"] and body["locals"][s["p"]["l"]]["ty"] == "core::option::Option<chess_movegen::ChessMove>"
+                    and (lambda d: d[0] == "agg" and d[2] == "Some")(k2.describe_def(P, body, "stmt", s))):
                 n += 1
                 g = k2.guards_of(P, key, bi)
                 calls = k2.guard_calls(g)
                 ib = [(c, v) for c, v in calls.items() if c.endswith("Policy>::is_better")]
-                ok = len(ib) == 1 and ib[0][1][0] is True and ib[0][1][1][0] == ("place", "score", ()) and ib[0][1][1][1] == ("place", "new", ())
-                ctx.ob(f"best move update #{n}", ok, f"a root move replaces the best move under {[(T.short(c), v[0]) for c, v in calls.items()]}; expected P::is_better(score, new)", site=site,
-                       sample={"guard": "P::is_better(score, new)"})
+                ok = False
+                if len(ib) == 1 and ib[0][1][0] is True:
+                    a0, a1 = ib[0][1][1][0], ib[0][1][1][1]
+                    ok = a0[0] == a1[0] == "place" and a0[2] == a1[2] == () and a0[1] in score_locals and a1[1] in cand_locals
+                ctx.ob(f"best move update #{n}", ok, f"a root move replaces the best move under {[(T.short(c), v[0]) for c, v in calls.items()]}; expected P::is_better(<running best score>, <score just returned by alphabeta>)",
+                       site=site, sample={"guard": "P::is_better(score, new)"})
     ctx.floor("best-move updates", n, 3)
-    # score starts at the policy's worst score in every pass
-    starts = []
-    for blk in body["blocks"]:
-        for s in blk["s"]:
-            if s["k"] == "assign" and body["locals"][s["p"]["l"]].get("n") in ("score", "best_score") and not s["p"]["pj"]:
-                d = k2.describe_def(P, body, "stmt", s)
-                if d[0] == "uneval":
-                    starts.append(d[1])
     ctx.ob("pass starts at WORST_SCORE", starts and all(x == "<P as chess_engine::Policy>::WORST_SCORE" for x in starts), f"root score is initialised from {starts}", site=site, sample=starts[:1])
 
 
@@ -345,5 +385,5 @@ def _extra_mate(P):
 CONTROLS = [
     ("mate colours swapped", "C12.R1", _swap_mate_colors),
     ("dead position: bishops <= 1 instead of == 0", "C12.R3", _insuff_loose),
-    ("eval builds a mate score", "C12.R2", _extra_mate),
+    ("eval builds a mate score", "C12.R1", _extra_mate),
 ]
